@@ -533,6 +533,10 @@ func (dbHarness) Gen(seed uint64, prop, tier string) *simkit.Program {
 		if r.P(0.4) {
 			focus = append(focus, stream{s.ci, (s.ai + 1) % 2, s.ti})
 		}
+		if s.ti != 0 && r.P(0.4) {
+			// the same emitter also addresses target chain 0 ("all chains"), as the governance emitter does
+			focus = append(focus, stream{s.ci, s.ai, 0})
+		}
 	}
 	pickStream := func() stream {
 		if r.P(0.85) {
